@@ -369,3 +369,101 @@ int bad_trunc_sib__shorter__cp_ecss_ver(bn_t e, bn_t s, const uint8_t *hash, siz
 	bn_mod(ev, ev, n);
 	return bn_cmp(ev, e) == RLC_EQ;
 }
+
+/* behaviour-preserving forms (round-4 robustness batches): the guards held in a flag set inside nested ifs, and in a
+ * static predicate helper */
+static int st_in_range(const bn_t x, const bn_t n) {
+	return (bn_sign(x) == RLC_POS && bn_cmp(x, n) == RLC_LT);
+}
+
+int ok_flag__cp_st_ver(const bn_t r, const bn_t s, const uint8_t *msg, size_t len, const ec_t q) {
+	bn_t n, v;
+	int result = 0;
+	bn_null(n);
+	bn_null(v);
+	RLC_TRY {
+		bn_new(n);
+		bn_new(v);
+		ec_curve_get_ord(n);
+		int wf = 0;
+		if (bn_sign(r) == RLC_POS) {
+			if (!bn_is_zero(r)) {
+				wf = (ec_on_curve(q) && !ec_is_infty(q));
+			}
+		}
+		if (wf) {
+			if (bn_cmp(r, n) == RLC_LT) {
+				bn_read_bin(v, msg, len);
+				bn_mod(v, v, n);
+				result = (bn_cmp(v, r) == RLC_EQ);
+			}
+		}
+	} RLC_CATCH_ANY {
+		RLC_THROW(ERR_CAUGHT);
+	} RLC_FINALLY {
+		bn_free(n);
+		bn_free(v);
+	}
+	return result;
+}
+
+int ok_helper__cp_st_ver(const bn_t r, const bn_t s, const uint8_t *msg, size_t len, const ec_t q) {
+	bn_t n, v;
+	int result = 0;
+	bn_null(n);
+	bn_null(v);
+	RLC_TRY {
+		bn_new(n);
+		bn_new(v);
+		ec_curve_get_ord(n);
+		int one = 0;
+		if (!bn_is_zero(r) && ec_on_curve(q)) {
+			one = 1;
+		}
+		if (one && st_in_range(r, n)) {
+			bn_read_bin(v, msg, len);
+			bn_mod(v, v, n);
+			result = (bn_cmp(v, r) == RLC_EQ);
+		}
+	} RLC_CATCH_ANY {
+		RLC_THROW(ERR_CAUGHT);
+	} RLC_FINALLY {
+		bn_free(n);
+		bn_free(v);
+	}
+	return result;
+}
+
+/* the flag is raised on a path on which the sign was not tested */
+int bad_ver_guard__flag__cp_st_ver(const bn_t r, const bn_t s, const uint8_t *msg, size_t len, const ec_t q) {
+	bn_t n, v;
+	int result = 0;
+	bn_null(n);
+	bn_null(v);
+	RLC_TRY {
+		bn_new(n);
+		bn_new(v);
+		ec_curve_get_ord(n);
+		int wf = 0;
+		if (bn_sign(r) == RLC_POS) {
+			if (!bn_is_zero(r)) {
+				wf = (ec_on_curve(q) && !ec_is_infty(q));
+			}
+		} else {
+			wf = ec_on_curve(q);
+		}
+		if (wf) {
+			if (bn_cmp(r, n) == RLC_LT) {
+				bn_read_bin(v, msg, len);
+				bn_mod(v, v, n);
+				result = (bn_cmp(v, r) == RLC_EQ);
+			}
+		}
+	} RLC_CATCH_ANY {
+		RLC_THROW(ERR_CAUGHT);
+	} RLC_FINALLY {
+		bn_free(n);
+		bn_free(v);
+	}
+	return result;
+}
